@@ -666,6 +666,13 @@ func namePointers(opts *FlattenOpts) error {
 		debugLog("name pointers: %q => %#v", k, ref)
 		if path.Dir(ref.String()) == definitionsPath {
 			// this a ref to a top-level definition: ok
+			if !opts.ContinueOnError {
+				// ... provided this definition exists
+				if _, _, err := ref.GetPointer().Get(opts.Swagger()); err != nil {
+					return ErrAtKey(k, ErrResolveSchema(err))
+				}
+			}
+
 			continue
 		}
 
